@@ -825,7 +825,11 @@ func TestVerifC02Edits(t *testing.T) {
 			}
 			bad, why := h.check(kind, m, h.stateKey(kind, ctor.Name, m))
 			raw, _ := m.RawBody()
-			fmt.Printf("after %d calls: descriptor=%+v\nRawBody=%s\nviolated clauses: %v\n", n, m.GetDescriptor(), short(raw, 800), why)
+			named := map[string]string{}
+			for cl, w := range why {
+				named[c02ClauseName[cl]] = w
+			}
+			fmt.Printf("after %d calls: descriptor=%+v\nRawBody=%s\nviolated clauses: %v\n", n, m.GetDescriptor(), short(raw, 800), named)
 			if n == len(prog) {
 				if newBad := bad &^ parentBad; newBad != 0 {
 					h.report(kind, ctor, prog, newBad, why)
